@@ -39,23 +39,23 @@ STRENGTH = "partial"     # several clauses hold only under a named guard or rest
 LEVEL_TEXT = (
     "Lean theorems for ALL fault scripts / backoff streams / delay configurations / label lists of any number of "
     "requesters; STRENGTH partial. UNGUARDED: attempts_bound (one pass of the function under @authenticated), "
-    "gap_ge_backoff (guard = exactly the documented enforce_retry_after override), gap_ge_retry_after (parsed value), "
-    "requested_rounded_up, success_stops, fatal_4xx_immediate, transient_retried_then_escalates, transient_http_iff, "
-    "retry_after_http_date + http_date_delay_exact (F1 repaired), unparsable_retry_after_uses_backoff (F1/F2 repaired); "
-    "throttler: delays_follow_config (incl. the served pause), empty_config_never_throttles, success_resets, swallowed "
-    "(iterable configurations), recovers_after_errors_stop, paused_while_active, interrupted_pause_is_kept; vault LTS: "
-    "single_reauth, single_reauth_when_logins_deliver, reauth_possible, no_impossible_state. GUARDED (_partial, each with "
-    "a proved negation witness replayed from the corpus and an open finding): gap_ge_requested_partial (guard: status 429; "
-    "witness retry_after_on_5xx_ignored_witness = F7), invalid_not_reused_partial and all_proceed_fresh_partial (guard: "
-    "last 3 invalidations of the SAME key with the SAME priority; three witnesses = F3). NEGATIVE results (the clause is "
-    "false of the code; open findings): body_garbage_not_retried_witness / body_garbage_stops (F6), "
-    "body_read_failure_not_retried_witness (F9), scalar_delays_escape_witness (F8). ORACLE-ONLY clauses (no theorem with "
-    "temporal content): 'does not stop the operator or delay other objects' - checked by part C on the REAL "
-    "queueing.watcher/worker + process_resource_event (2-4 objects, failing index/event filters, scalar/empty/list "
-    "delays, worker_limit None/1/2): it FAILS in three recorded ways (F8 scalar stops the operator, F10 index-readiness "
-    "gate stuck, F11 worker_limit) and holds otherwise; the structural containment product_projection is a lemma, not "
-    "counted. 'processing recovers once errors stop' is per throttler cycle (a NEW event of the object is needed: the "
-    "failed one is dropped). Tie: status->class chain, >=400 guard and retry tuple extracted from the AST and proved "
+    "gap_ge_backoff (guard = exactly the documented enforce_retry_after override), gap_ge_retry_after and "
+    "gap_ge_requested (every retried status - 429, 5xx, 403 - against what the server SENT: fractions, any spelling, "
+    "HTTP-date, details; F4/F5/F7 repaired), requested_rounded_up, success_stops, fatal_4xx_immediate, "
+    "transient_retried_then_escalates, transient_http_iff (whatever the body: F6 repaired), retry_after_http_date + "
+    "http_date_delay_exact (F1), unparsable_retry_after_uses_backoff (F1/F2/F6: garbage/overflow header, non-dict body, "
+    "unusable details -> the configured backoff, no foreign exception); throttler (every configuration, a scalar "
+    "being the one-item list: scalar_delays_is_one_item_list, F8 repaired): delays_follow_config (incl. the served "
+    "pause), empty_config_never_throttles, success_resets, swallowed, recovers_after_errors_stop, paused_while_active, "
+    "interrupted_pause_is_kept; vault LTS: single_reauth, single_reauth_when_logins_deliver, reauth_possible, "
+    "no_impossible_state. GUARDED (_partial, with proved negation witnesses replayed from the corpus and open finding "
+    "F3): invalid_not_reused_partial and all_proceed_fresh_partial (guard: last 3 invalidations of the SAME key with "
+    "the SAME priority). NEGATIVE (open finding F9): body_read_failure_not_retried_witness. ORACLE-ONLY clauses (no "
+    "theorem with temporal content): 'does not stop the operator or delay other objects' - checked by part C on the "
+    "REAL queueing.watcher/worker + process_resource_event (2-4 objects, failing index/event filters, scalar/empty/list "
+    "delays, worker_limit None/1/2): holds (F8, F10 repaired) except under worker_limit (open finding F11, by design of "
+    "that setting). 'processing recovers once errors stop' is per throttler cycle (a NEW event of the object is needed: "
+    "the failed one is dropped). Tie: status->class chain, >=400 guard and retry tuple extracted from the AST and proved "
     "equal; the real api.request / api.get / throttled / Vault+authenticated+authenticator run against the models "
     "(differential with exact ticks; product run of concurrent objects; trace acceptance with vault-state snapshots). The "
     "structure of the retry loop, of throttled() and of the Vault methods is tied by those runs (sampled), not by translation.")
@@ -64,13 +64,12 @@ TIE = ("T (check_response chain + retry tuple: AST → Lean, proved equal) + D (
        "authenticator: labelled segments accepted by the Lean LTS with equal vault state after every label); part C "
        "(real watcher/worker/process_resource_event) is oracle-only")
 THEOREMS = [("Kopf.Props.C12", "Kopf.C12." + n) for n in [
-    "attempts_bound", "gap_ge_backoff", "gap_ge_retry_after", "gap_ge_requested_partial", "requested_rounded_up",
-    "retry_after_on_5xx_ignored_witness",
+    "attempts_bound", "gap_ge_backoff", "gap_ge_retry_after", "gap_ge_requested", "requested_rounded_up",
     "fatal_4xx_immediate", "transient_retried_then_escalates", "success_stops", "transient_http_iff",
     "retry_after_http_date", "http_date_delay_exact", "unparsable_retry_after_uses_backoff",
-    "body_garbage_not_retried_witness", "body_garbage_stops", "body_read_failure_not_retried_witness",
+    "body_read_failure_not_retried_witness",
     "delays_follow_config", "empty_config_never_throttles", "success_resets", "swallowed",
-    "scalar_delays_escape_witness", "recovers_after_errors_stop", "paused_while_active",
+    "scalar_delays_is_one_item_list", "recovers_after_errors_stop", "paused_while_active",
     "interrupted_pause_is_kept",
     "single_reauth", "single_reauth_when_logins_deliver", "reauth_possible", "all_proceed_fresh_partial",
     "invalid_not_reused_partial",
@@ -108,8 +107,8 @@ TRUSTED = [
     "(Kopf.Drv.C12.handle) is served by a private main (harness/props/c12.py::ask_lean)",
 ]
 ASSUMPTIONS = [
-    "nothing is exempted from the oracle on account of a theorem guard: Retry-After on 5xx/403 (F7), scalar error_delays (F8), error bodies the client does not expect (F6), body reads outside the retry loop (F9), the index-readiness gate (F10), worker_limit (F11) and re-served credentials (F3) are open findings whose signatures the oracle reports; F11 is by design of that setting",
-    "Retry-After forms on a 429: delay-seconds rounded UP (F5 fixed e640e5e), any capitalisation of the name (F4 fixed aac39f2), HTTP-date (F1 fixed dee5a41/19d7f3b), garbage and float overflow (F2 fixed ae1ab5d) ignored like an absent header except that the body's retryAfterSeconds is then not consulted - judged strictly: never before what the server asked; two Retry-After headers in one answer are not generated",
+    "nothing is exempted from the oracle on account of a theorem guard; open findings whose signatures the oracle reports: re-served credentials (F3), body reads outside the retry loop (F9), worker_limit (F11, by design of that setting). Fixed, kept as regression cases in corpus/C12: F1 F2 F4 F5 (Retry-After forms), F6 (unexpected error bodies, ba57df1), F7 (Retry-After on every retried APIError, f4c61b5), F8 (scalar error_delays, 3ebc040), F10 (index-readiness toggle, 58a504d)",
+    "Retry-After forms on a retried error answer (429, 5xx, 403): delay-seconds rounded UP (F5 fixed e640e5e), any capitalisation of the name (F4 fixed aac39f2), HTTP-date (F1 fixed dee5a41/19d7f3b), garbage and float overflow (F2 fixed ae1ab5d) ignored like an absent header except that the body's retryAfterSeconds is then not consulted - judged strictly: never before what the server asked; two Retry-After headers in one answer are not generated",
     "with settings.networking.enforce_retry_after a 429 carrying a usable Retry-After waits for the server's value even if shorter than the backoff (documented override; exactly the guard of gap_ge_backoff)",
     "error_backoffs / error_delays are re-iterable (list, tuple, object with __iter__); a one-shot generator object is consumed across requests / shared by all objects' throttlers and is outside the model (the property quantifies over re-iterable configurations); plain list/tuple configurations are one object shared by all throttlers of a case, as in the operator",
     "credentials have no expiration (Vault._expire forgets credentials without remembering them: outside the model); every populate brings newly constructed info objects (equal values allowed); login handlers do not raise (a failing login handler kills the authenticator task: see C20)",
@@ -210,9 +209,12 @@ def extract(ctx: Ctx) -> None:
     # the retry tuple of api.request
     atree = pyextract.parse_file(ctx.repo / "kopf/_cogs/clients/api.py")
     req = pyextract.find_def(atree, "request")
-    tries = [n for n in ast.walk(req) if isinstance(n, ast.Try)]
+    # the attempt is the try statement directly in the retry loop (nested ones guard the parsing of
+    # details.retryAfterSeconds inside the handler)
+    loops = [n for n in ast.walk(req) if isinstance(n, ast.For)]
+    tries = [st for lp in loops for st in lp.body if isinstance(st, ast.Try)]
     if len(tries) != 1:
-        raise ExtractError("api.request: expected exactly one try statement (the attempt)")
+        raise ExtractError("api.request: expected exactly one try statement (the attempt) in the retry loop")
     hs = tries[0].handlers
     if len(hs) != 2 or pyextract.norm(hs[0].type) != "RuntimeError" or not isinstance(hs[1].type, ast.Tuple):
         raise ExtractError("api.request: expected `except RuntimeError` followed by one retry tuple")
